@@ -5,7 +5,7 @@ TMP = tempfile.mkdtemp()
 HDR = '''From Coq Require Import String.
 From PS Require Import Base GFDefs PackDefs StoreDefs MiscDefs StrDefs LangDefs ApiDefs SpecDefs SpecApi.
 From PS Require Import GFProofs MiscProofs CoinProofs PackProofs PackTheorems StoreProofs SeedProofs ApiLemmas RefineProofs.
-From PS Require Import StrProofs CTieBase CTieLang CTiePhrase CTiePhraseEv CTieSplit CTieApi CTieDecode CTieEncode CTieLocals CTieInject CTieCmp CTieSearch CodeTheorems.
+From PS Require Import StrProofs CTieBase CTieLang CTiePhrase CTiePhraseEv CTieSplit CTieApi CTieDecode CTieEncode CTieLocals CTieInject CTieCmp CTieSearch CTieClosed CodeTheorems.
 From PS.Gen Require Import Consts PrivConsts Langs.
 From PS.Gen Require CFuns CApi.
 Local Open Scope N_scope.
@@ -23,7 +23,7 @@ def typ(name):
 IMPORTS = '''
 (* ---- the tie to the code: src/polyseed.c as TRANSLATED on this run (Gen/CApi.v) ---- *)
 From Coq Require Import String.
-From PS Require Import Base GFDefs PackDefs StoreDefs MiscDefs StrDefs LangDefs ApiDefs SpecDefs SpecApi GFProofs PackProofs StoreProofs RefineProofs CTieBase CTieLang CTiePhrase CTiePhraseEv CTieSplit CTieApi CTieDecode CTieEncode CTieLocals CTieInject CTieCmp CTieSearch CodeTheorems.
+From PS Require Import Base GFDefs PackDefs StoreDefs MiscDefs StrDefs LangDefs ApiDefs SpecDefs SpecApi GFProofs PackProofs StoreProofs RefineProofs CTieBase CTieLang CTiePhrase CTiePhraseEv CTieSplit CTieApi CTieDecode CTieEncode CTieLocals CTieInject CTieCmp CTieSearch CTieClosed CodeTheorems.
 From PS.Gen Require Import Consts PrivConsts Langs.
 From PS.Gen Require CFuns.
 From PS.Gen Require CApi.
@@ -39,8 +39,10 @@ PLAN = {
          ('api_store','tie_store','polyseed_store as translated = the storage layout, for every canonical struct'),
          ('roundtrip','code_store_load','ON THE CODE: what the translated polyseed_store writes for a live seed of any reachable state, the translated polyseed_load turns back into the same struct (status OK, one allocation, one wipe of poly) - ties composed with C06_api_roundtrip')],
  'C09': [('split','tie_str_split','str_split as translated (offsets into the buffer, separators overwritten in place): the count returned and the tokens designated are the mirror\'s, for every NUL-free content'),
-         ('api_decode','tie_decode','polyseed_decode as translated against the mirror step'),
-         ('api_decode_explicit','tie_decode_explicit','polyseed_decode_explicit as translated against the mirror step')],
+         ('api_decode','tie_decode','polyseed_decode as translated against the mirror step (lang_search an external function that answers as the mirror search)'),
+         ('api_decode_explicit','tie_decode_explicit','polyseed_decode_explicit as translated against the mirror step'),
+         ('decode_closed','tie_decode_closed','the chain closed: polyseed_decode as translated, the search of the language loop being the TRANSLATED polyseed_lang_find_word; left as hypotheses only libc bsearch (contract), the injected normaliser and the allocator'),
+         ('decode_explicit_closed','tie_decode_explicit_closed','the same for polyseed_decode_explicit')],
  'C10': [('api_get_feature','tie_get_feature','polyseed_get_feature as translated'), ('api_is_encrypted','tie_is_encrypted_api','polyseed_is_encrypted as translated')],
  'C11': [('api_get_birthday','tie_get_birthday','polyseed_get_birthday as translated'), ('api_create','tie_create','polyseed_create as translated against the mirror step (birthday = birthday_encode of the injected clock)')],
  'C12': [('involution','code_crypt_twice','ON THE CODE: the translated polyseed_crypt applied twice with the same password returns the struct byte for byte - tie composed with C12_involution'),
